@@ -26,6 +26,10 @@ func main() {
 		cmdReload(os.Args[2:])
 	case "life":
 		cmdLife(os.Args[2:])
+	case "concgate":
+		cmdConcGate(os.Args[2:])
+	case "concstress":
+		cmdConcStress(os.Args[2:])
 	default:
 		fmt.Fprintln(os.Stderr, "unknown command", os.Args[1])
 		os.Exit(2)
